@@ -142,6 +142,10 @@ func c05Run(env *core.Env, idx int) core.CaseResult {
 	o := gen.WorldOpts{NDocs: 1 + rng.Intn(4), Cyclic: true, Nested: true, Chains: rng.Intn(3) == 0, HostileNames: true, HTTP: rng.Intn(2) == 0,
 		Elements: 2 + rng.Intn(2), MaxDepth: 1 + rng.Intn(3), RefDensity: 0.35, Siblings: rng.Intn(3) == 0, WholeDoc: rng.Intn(3) == 0, PrefixDocs: idx%4 == 0}
 	w := gen.GenWorld(rng, o)
+	if idx%5 == 1 {
+		w = gen.Relocate(w, "noext") // a root document whose file name has no extension
+		res.Count("root-without-extension", 1)
+	}
 	in := oworld(w)
 	res.Hash = core.HashOf(w.Docs)
 	var docs []string
@@ -199,6 +203,22 @@ func c05Run(env *core.Env, idx int) core.CaseResult {
 			if tdoc != w.Root {
 				tdoc = tdoc + ".missing"
 				fault = "dangling-document"
+			}
+		case 3:
+			// an undeclared status code of an operation that exists (and may have a default response): designates nothing
+			if t.kind == "response" && len(toks) >= 2 && toks[len(toks)-2] == "responses" {
+				parent := oracle.State{Doc: t.st.Doc, Ptr: oracle.TokensToPointer(toks[:len(toks)-1])}
+				if node, ok := in.Lookup(parent); ok {
+					if rm, isObj := node.(map[string]interface{}); isObj {
+						for _, code := range []string{"404", "200", "500", "201"} {
+							if _, has := rm[code]; !has {
+								toks = append(append([]string{}, toks[:len(toks)-1]...), code)
+								fault = "dangling-pointer(undeclared-status-code)"
+								break
+							}
+						}
+					}
+				}
 			}
 		}
 		text := gen.RefText(w.Root, tdoc, toks, form)
@@ -330,7 +350,7 @@ func init() {
 		Run:      c05Run,
 		Floors: func(env *core.Env) []string {
 			return []string{"kind.schema", "kind.parameter", "kind.response", "kind.pathItem", "kind.items", "root.typed", "root.generic", "root.location-only", "root.typed(no-base)",
-				"root.generic(no-base)", "fault.dangling-pointer", "fault.dangling-pointer(absent-keyword)", "fault.dangling-document", "escaped-token", "cross-document", "options.continue-on-error", "form.fragment", "form.rel", "form.abs", "form.rootrel"}
+				"root.generic(no-base)", "fault.dangling-pointer", "fault.dangling-pointer(absent-keyword)", "fault.dangling-document", "escaped-token", "cross-document", "options.continue-on-error", "root-without-extension", "fault.dangling-pointer(undeclared-status-code)", "form.fragment", "form.rel", "form.abs", "form.rootrel"}
 		},
 		Assumptions: []string{"the expected value is the designated JSON after the kind's own codec (C01 owns codec losses)", "the zero Ref{} is not a reference and is left out"},
 	})
